@@ -75,11 +75,14 @@ class Gen:
             elif x < 0.95:
                 lines.append("C %s" % t)
             else:
-                if self.restarts:
+                if self.restarts and (not self.rejects or r.random() < 0.5):
                     lines.append(r.choice(["REOPEN", "RESTART"]))
                 elif self.rejects:
                     k = r.random()
-                    if k < 0.3:
+                    if self.long_names and k < 0.25:
+                        ln = "L%d" % r.choice([216, 217, 218, 230, 300])
+                        lines.append(r.choice(["A %s %d 5" % (ln, self.pid), "B %s %d:5,%d:6" % (ln, self.pid, self.pid + 1)])); self.pid += 2
+                    elif k < 0.3:
                         lines.append("B %s -" % t)
                     elif k < 0.6:
                         lines.append("A %s %d %d" % (t, self.pid, self.max_alloc - H + 1 + r.randint(0, 50))); self.pid += 1
